@@ -165,6 +165,11 @@ fn scalars() -> Vec<Scalar> {
     // (doubling) or opposite-operands (identity) branch: [r+2]P ends with P + P, and so on
     push(add_small(R, 2), "r+2");
     push(add_small(R, 3), "r+3");
+    // canonical scalars whose last wNAF step adds a table entry equal to the accumulator:
+    // k = r + 2d for a negative odd digit d (the accumulator is [r + d]P = [d]P, the digit adds [d]P)
+    for d in [2u64, 6, 10, 14, 30, 62, 3, 4, 5] {
+        push(sub_small(R, d), &format!("r-{}", d));
+    }
     // 256-bit scalars (plain and table-driven paths only)
     let (r2, _) = add4(R, R);
     push(sub_small(r2, 1), "2r-1");
